@@ -85,6 +85,8 @@ MUTANTS: list[M] = [
     M("title-quotes-unescaped", ("C01", "C04"), FM, "escaped = title.strip('\"').replace('\"', '\\\\\"')", "escaped = title.strip('\"')", "R-ENCODE-title"),
     M("alignment-folded", ("C01",), FM, '                normalized_delimiter = ":---:"', '                normalized_delimiter = ":---"', "R-DECISION"),
     M("fence-off-by-one", ("C01", "C04"), FM, "return max(3, max_len + 1)", "return max(3, max_len)", "R-BOUND"),
+    M("closing-fence-any-run", ("C01", "C04"), FM, "            if m and parse_info.leading in m.group(1):\n                break\n\n            prefix_len", "            if m:\n                break\n\n            prefix_len", "R-FENCE"),
+    M("closing-fence-four-spaces", ("C04",), FM, 'm = re.match(r" {,3}(~+|`+)[^\\n\\S]*$", line, flags=re.M)', 'm = re.match(r" *(~+|`+)[^\\n\\S]*$", line, flags=re.M)', "R-FENCE"),
     M("lang-lowercased", ("C01", "C04"), FM, "lang = element.lang if", "lang = element.lang.lower() if", "R-ENCODE-verbatim"),
     M("list-start-ignored", ("C01",), FM, "num = i + element.start", "num = i + 1", "R-FIELD"),
     M("hard-break-as-soft", ("C01", "C03"), FM, 'return "\\n" if element.soft else "\\\\\\n"', 'return "\\n"', "R-FIELD"),
